@@ -99,6 +99,12 @@ CHECKS.update({
    note="depth-bounded; two mass values, two adhesion values, two force values (one consistent with (mu1, m1)); the dummy locomotive's derived mass of exactly 0 kg is treated as degenerate for mu = f/(m g)"),
 })
 
+CHECKS.update({
+ "C17": dict(level="fault_enumeration", ref="3 C17", technique="exhaustive checkpoint enumeration (E-CKPT): every catalogue type x {yaml, json, bin} x {string/bytes, file} x every step index of short runs as save/load point; resumed run compared with the uninterrupted run",
+   text="Every exported model type in default and stepped states is written and read back in each advertised format through both APIs; for the four simulation kinds every step index of three run shapes is used as the checkpoint: save, load, save and load again (no drift), then the original and the reloaded copy are both run to the end and must agree step for step and in the final object (bit-exact for yaml/bin through the serialized view, 1e-9 relative for json).",
+   note="three known serde limitations are listed in KNOWN_FINDINGS.txt keyed by (format, cause class); objects in those classes are only covered in the remaining formats; load(save(x)) == x is not demanded field by field because init() normalises derived state"),
+})
+
 def main():
     checks = []
     for pid in sorted(CHECKS):
